@@ -14,10 +14,10 @@ package samlsp
 //@ requires[cfg] cfg: c.SigningMethod != nil && c.Key != nil
 //@ ensures[C16] nil_iff_err: (result == nil) == (err != nil)
 //@ -- exactly one allowed signing method: the codec's own
-//@ assert@call[C16] ParseWithClaims #each (p *jwt.Parser, token string) allowed_methods:
+//@ assert@call[C16] ParseWithClaims #0 (p *jwt.Parser, token string) allowed_methods:
 //@    p != nil && len(p.ValidMethods) == 1 && p.ValidMethods[0] == c.SigningMethod.Alg() && token == signed
 //@ -- and the parser's own claims validation (exp, nbf: the session's lifetime) stays on
-//@ assert@call[C16] ParseWithClaims #each (p *jwt.Parser, token string) parser_checks_expiry: !p.SkipClaimsValidation
+//@ assert@call[C16] ParseWithClaims #0 (p *jwt.Parser, token string) parser_checks_expiry: !p.SkipClaimsValidation
 //@ -- success only after the library accepted the token AND audience, issuer and the session marker match
 //@ ensures[C16] audience: err == nil ==> isSessionClaims(result) && sessionClaims(result).Audience == c.Audience && c.Audience != ""
 //@ ensures[C16] issuer: err == nil ==> sessionClaims(result).Issuer == c.Issuer && c.Issuer != ""
@@ -75,10 +75,10 @@ package samlsp
 //@ contract (JWTTrackedRequestCodec).Decode
 //@ requires[cfg] cfg: s.SigningMethod != nil && s.Key != nil
 //@ ensures[C04,C17] nil_iff_err: (result == nil) == (err != nil)
-//@ assert@call[C04,C17] ParseWithClaims #each (p *jwt.Parser, token string) allowed_methods:
+//@ assert@call[C04,C17] ParseWithClaims #0 (p *jwt.Parser, token string) allowed_methods:
 //@    p != nil && len(p.ValidMethods) == 1 && p.ValidMethods[0] == s.SigningMethod.Alg() && token == signed
 //@ -- and it is the parser that enforces the lifetime fixed at mint time (exp, nbf): its claims validation stays on
-//@ assert@call[C04,C17] ParseWithClaims #each (p *jwt.Parser, token string) parser_checks_expiry: !p.SkipClaimsValidation
+//@ assert@call[C04,C17] ParseWithClaims #0 (p *jwt.Parser, token string) parser_checks_expiry: !p.SkipClaimsValidation
 //@ -- a tracked request is returned only for tokens carrying the tracking marker (a session token is not one)
 //@ assert@store[C04,C17] Index #each uses claims JWTTrackedRequestClaims only_marked_tokens:
 //@    claims.SAMLAuthnRequest && claims.Issuer == s.Issuer && s.Issuer != ""
@@ -204,7 +204,7 @@ package samlsp
 //@ ghost func allocatedHereBytes(b []byte) bool
 //@ assert@return[C17] #each (out []byte) own_memory: allocatedHereBytes(out)
 //@ ensures[C17] length: len(result) == n
-//@ assert@call[C17] io.ReadFull #each (r io.Reader, buf []byte) uses rv []byte fills_all_from_configured_source:
+//@ assert@call[C17] io.ReadFull #0 (r io.Reader, buf []byte) uses rv []byte fills_all_from_configured_source:
 //@    r == saml.RandReader && sameBytes(buf, rv) && len(buf) == n
 
 //@ -- the default service provider: options are passed through unchanged; requests are signed exactly when asked, with the
